@@ -172,7 +172,8 @@ func Check(c Case) ([]evid.Violation, info) {
 				case 3:
 					// a route with a path variable and a query parameter: the picked
 					// handler must cope with parameters resolved for another owner
-					res = drive.Serve(mux, drive.Request("GET", "/fx/"+strings.ToLower(s)+"/QUJD", "f_int32=5", nil, nil, 0))
+					// (the query also names a nested field, whose path runs through a message field)
+					res = drive.Serve(mux, drive.Request("GET", "/fx/"+strings.ToLower(s)+"/QUJD", "f_int32=5&nest.sub_title=q&nest.leaf.count=2", nil, nil, 0))
 				case 2:
 					res = drive.Serve(mux, drive.GRPCRequest("/un."+s+"/Ping", nil, bytes.NewReader(drive.GRPCFrame(nil, false)), "application/grpc"))
 				}
